@@ -210,6 +210,19 @@ def handle (j : Json) : Json :=
   | some ops => Json.mkObj [("ctx", ctxOps (decMode (fld j "mode")) (arr! ops))]
   | none =>
   let T := decTables j
+  match obj? j "type" with
+  | some tj =>
+    -- a bare type called on a value: the error list of that level is visible
+    let ty := decTy tj
+    let o := decOpts (fld j "opts")
+    let v := decVal (fld j "value")
+    let modes := (arr! (fld j "modes")).map decMode
+    let go (W : World) : Json :=
+      Json.mkObj [("runs", Json.arr (modes.map fun m => encRes encVal (runType W fuel ty m o v)).toArray)]
+    let a := go (mkWorld T none)
+    let b := go (mkWorld T (some missVal))
+    Json.mkObj [("model", a), ("miss", Json.bool (a.compress != b.compress))]
+  | none =>
   let decl := (arr! (fld j "decl")).map decField
   let o := decOpts (fld j "opts")
   let data : Data := (arr! (fld j "data")).map fun p => match arr! p with
